@@ -13,7 +13,10 @@ COQ_HEADER = []        # filled by _eq_table(): the value domain and the Python-
 RULE = ("histories of push / push(None) / extend|update / pull(emptive or not) / clear / count / remove / sync(force) and "
         "REJECTED operations (extend|update|put of a batch with a non-RegDom member (str, int, dict, None) at a random "
         "position after >= 0 valid members, push/remove/add of such a value; the caller catches the error and carries on) over "
-        "up to 3 queues (keys 'q', 'qq', 'top.q') sharing one real LMDB sub-db of a Subery, values from an 11-element "
+        "up to 3 queues of one kind (keys 'q', 'qq', 'top.q') or, in half of the cases, Durqs AND Dusqs side by side in one "
+        "Subery (two Holds), always with a queue and a set at the SAME key and often at prefix-related keys, a key may be used "
+        "as one kind before a reopen and as the other after it; the reference is one independent FIFO / ordered set per "
+        "(kind, key) and the entry counts of the whole drqs / dsqs sub-dbs must equal the reference totals; values from an 11-element "
         "domain of Bag/IceBag instances with duplicates (and, in a separate stream, values equal in Python but "
         "serialised differently: 1 / 1.0 / True); between any two ops the store may be closed and reopened with fresh "
         "queue objects injected through Hold (crash point), or a new preloaded queue object injected at a live key; "
@@ -44,6 +47,14 @@ def _bad(kind, in_batch=True):
     if v is None and not in_batch:
         v = 7.5                      # push(None) is the accepted no-op, not a rejection
     return dict(v) if isinstance(v, dict) else v
+
+
+def _slots(case):
+    """slot -> (kind, key index).  'durq'/'dusq' cases: 3 queues of that kind at the 3 keys;
+    'mixed' cases: 6 slots, slot 2k = Durq at KEYS[k], slot 2k+1 = Dusq at KEYS[k] (same key, both kinds)."""
+    if case["kind"] == "mixed":
+        return [(("durq", "dusq")[i % 2], i // 2) for i in range(6)]
+    return [(case["kind"], q) for q in range(3)]
 
 
 def _mk(i):
@@ -80,6 +91,18 @@ def directed():
             ops += [["reopen", {"2": [4]}, v], ["push", 0, 2], ["extend", 1, [0, 1]], ["pull", 2, True]]
         out.append({"kind": kind, "ops": ops, "via0": 5})
         out.append({"kind": kind, "ops": [["push", 0, 0], ["push", 1, 1], ["push", 2, 2], ["reopen", {}, 12], ["pull", 0, False]], "via0": [6, 13, 15]})
+    # a queue and a set at the same key (and at prefix-related keys) in one Subery; slot 2k = Durq, 2k+1 = Dusq at KEYS[k].
+    # same values on both, dedupe only on the set, pulls/clears/removes on one must not touch the other,
+    # a key that is a Durq before a reopen and only used as a Dusq afterwards (kind change), bulk entry
+    out.append({"kind": "mixed", "ops": [
+        ["push", 0, 0], ["push", 1, 0], ["push", 0, 0], ["push", 1, 0], ["extend", 0, [1, 2]], ["extend", 1, [1, 1, 3]],
+        ["pull", 0, True], ["remove", 1, 1], ["push", 2, 4], ["push", 3, 4], ["clear", 1], ["count", 0, 0],
+        ["reopen", {}, 5], ["pull", 0, False], ["pull", 1, True], ["push", 1, 2], ["pull", 2, True], ["pull", 3, True],
+        ["clear", 0], ["push", 1, 6], ["reopen", {"0": [5], "1": [5, 5]}, [0, 2, 3, 8, 10, 14]], ["pull", 0, True],
+        ["pull", 1, True], ["pull", 1, True], ["pull", 1, True]]})
+    out.append({"kind": "mixed", "via0": 12, "ops": [
+        ["extend", 4, [0, 1, 2]], ["reopen", {}, 7], ["pull", 5, True], ["push", 5, 0], ["reopen", {}],
+        ["pull", 5, True], ["pull", 4, True], ["remove", 5, 0], ["pull", 4, False]]})
     # D38 witness: values equal in Python, serialised differently
     out.append({"kind": "dusq", "ops": [["push", 0, 0], ["push", 0, 7], ["push", 0, 8]]})
     out.append({"kind": "dusq", "ops": [["push", 0, 0], ["remove", 0, 7]]})
@@ -89,9 +112,18 @@ def directed():
 
 def _gen(rng, kind, dom, n):
     ops = []
-    nq = rng.choice([1, 2, 3])
+    if kind == "mixed":
+        # always a queue and a set at the same key, often more slots (prefix-related keys 'q' / 'qq')
+        k = rng.randrange(3)
+        active = [2 * k, 2 * k + 1] + rng.sample([i for i in range(6) if i // 2 != k], rng.choice([0, 1, 2]))
+        nvia = 6
+    else:
+        active = list(range(rng.choice([1, 2, 3])))
+        nvia = 3
+    ckind = kind
     for _ in range(n):
-        q = rng.randrange(nq)
+        q = rng.choice(active)
+        kind = ("durq", "dusq")[q % 2] if ckind == "mixed" else ckind
         r = rng.random()
         if r < 0.28:
             ops.append(["push", q, rng.choice(dom)])
@@ -125,29 +157,29 @@ def _gen(rng, kind, dom, n):
         elif r < 0.95:
             pre = {}
             if rng.random() < 0.3:
-                pre[str(rng.randrange(nq))] = [rng.choice(dom) for _ in range(rng.choice([1, 2, 3]))]
-            ops.append(["reopen", pre, _rand_via(rng)])
+                pre[str(rng.choice(active))] = [rng.choice(dom) for _ in range(rng.choice([1, 2, 3]))]
+            ops.append(["reopen", pre, _rand_via(rng, nvia)])
         else:
             ops.append(["reinject", q, [rng.choice(dom) for _ in range(rng.choice([0, 1, 2]))], rng.randrange(len(VIA))])
-    return {"kind": kind, "ops": ops, "via0": _rand_via(rng)}
+    return {"kind": ckind, "ops": ops, "via0": _rand_via(rng, nvia)}
 
 
-def _rand_via(rng):
+def _rand_via(rng, n=3):
     r = rng.random()
     if r < 0.35:
-        return rng.choice(BULK)                       # all queues in one update(...) / Hold(...) call
-    return [rng.randrange(len(VIA)) for _ in range(3)]
+        return rng.choice(BULK)                       # all queues of a kind in one update(...) / Hold(...) call
+    return [rng.randrange(len(VIA)) for _ in range(n)]
 
 
 def generate(rng, tier):
     n = 300 if tier == "quick" else 4000
     out = []
     for i in range(n):
-        kind = rng.choice(["durq", "dusq"])
+        kind = rng.choice(["durq", "dusq", "mixed", "mixed"])
         dom = rng.sample(PLAIN, rng.choice([2, 3, 4]))
-        out.append(_gen(rng, kind, dom, rng.choice([4, 8, 12, 20, 30])))
+        out.append(_gen(rng, kind, dom, rng.choice([4, 8, 12, 20, 30]) if kind != "mixed" else rng.choice([4, 8, 12, 20])))
     for i in range(n // 6):    # stream with Python-equal, differently serialised values (D38 class for Dusq)
-        kind = rng.choice(["durq", "dusq"])
+        kind = rng.choice(["durq", "dusq", "mixed"])
         dom = rng.sample([0, 7, 8, 9, 10, 1], rng.choice([3, 4]))
         out.append(_gen(rng, kind, dom, rng.choice([4, 8, 12])))
     return out
@@ -167,9 +199,11 @@ _N = [0]
 
 
 class _World:
-    def __init__(self, kind):
+    """One Subery (LMDB env in a scratch dir) and two Holds over it: one for the Durqs, one for the Dusqs, so a
+    queue and a set can sit at the same key."""
+    def __init__(self, case):
         _N[0] += 1
-        self.kind = kind
+        self.slots = _slots(case)
         self.head = str(scratch_dir() / f"c23-{_N[0]}")
         self.sub = None
         self.qs = {}
@@ -178,62 +212,66 @@ class _World:
         from hio.base.during import Subery
         from hio.base.hier.holding import Hold
         self.sub = Subery(name="c23", headDirPath=self.head, reopen=True)
-        self.hold = Hold()
-        self.hold._hold_subery = self.sub
-        self.sdb = self.sub.drqs if self.kind == "durq" else self.sub.dsqs
+        self.holds = {}
+        for kind in ("durq", "dusq"):
+            self.holds[kind] = Hold()
+            self.holds[kind]._hold_subery = self.sub
+        self.sdbs = {"durq": self.sub.drqs, "dusq": self.sub.dsqs}
 
-    def _new(self, pre):
+    def _new(self, kind, pre):
         from hio.base.hier import Durq, Dusq
-        cls = Durq if self.kind == "durq" else Dusq
+        cls = Durq if kind == "durq" else Dusq
         return cls([_mk(i) for i in pre]) if pre else cls()
 
-    def enter(self, items, via):
-        """items: list of (q, pre); all of them enter a Hold through entry point VIA[via] (one call when
-        the entry point takes several items).  Returns {q: injected?}."""
+    def enter(self, kind, items, via):
+        """items: list of (slot, pre), all of kind `kind`; they enter that kind's Hold through entry point
+        VIA[via] (one call when the entry point takes several items).  Returns {slot: injected?}."""
         from hio.base.hier.holding import Hold
         name = VIA[via][0]
-        objs = [(KEYS[q], self._new(pre)) for q, pre in items]
+        objs = [(KEYS[self.slots[sl][1]], self._new(kind, pre)) for sl, pre in items]
         sub = ("_hold_subery", self.sub)
+        hold = self.holds[kind]
         if name == "setitem":
             for k, o in objs:
-                self.hold[k] = o
+                hold[k] = o
         elif name == "setattr":
             for k, o in objs:
-                setattr(self.hold, k, o)
+                setattr(hold, k, o)
         elif name == "update_mapping":
-            self.hold.update(dict(objs))
+            hold.update(dict(objs))
         elif name == "update_list":
-            self.hold.update(list(objs))
+            hold.update(list(objs))
         elif name == "update_tuple":
-            self.hold.update(tuple(objs))
+            hold.update(tuple(objs))
         elif name == "update_zip":
-            self.hold.update(zip([k for k, _ in objs], [o for _, o in objs]))
+            hold.update(zip([k for k, _ in objs], [o for _, o in objs]))
         elif name == "update_generator":
-            self.hold.update((k, o) for k, o in objs)
+            hold.update((k, o) for k, o in objs)
         elif name == "update_iter":
-            self.hold.update(iter(list(objs)))
+            hold.update(iter(list(objs)))
         elif name == "update_map":
-            self.hold.update(map(lambda ko: ko, objs))
+            hold.update(map(lambda ko: ko, objs))
         elif name == "update_kw":
-            self.hold.update(**dict(objs))
+            hold.update(**dict(objs))
         elif name == "update_empty_kw":
-            self.hold.update({}, **dict(objs))
+            hold.update({}, **dict(objs))
         elif name == "ctor_mapping":
-            self.hold = Hold(dict([sub] + objs))
+            hold = Hold(dict([sub] + objs))
         elif name == "ctor_list":
-            self.hold = Hold([sub] + objs)
+            hold = Hold([sub] + objs)
         elif name == "ctor_zip":
-            self.hold = Hold(zip([sub[0]] + [k for k, _ in objs], [sub[1]] + [o for _, o in objs]))
+            hold = Hold(zip([sub[0]] + [k for k, _ in objs], [sub[1]] + [o for _, o in objs]))
         elif name == "ctor_generator":
-            self.hold = Hold(ko for ko in [sub] + objs)
+            hold = Hold(ko for ko in [sub] + objs)
         elif name == "ctor_kw":
-            self.hold = Hold(**dict([sub] + objs))
+            hold = Hold(**dict([sub] + objs))
         else:
             raise ValueError(name)
+        self.holds[kind] = hold
         ok = {}
-        for (q, _), (k, o) in zip(items, objs):
-            self.qs[q] = o
-            ok[q] = bool(o.durable) and o._key == k and o._sdb is self.sdb and self.hold[k] is o and not o.stale
+        for (sl, _), (k, o) in zip(items, objs):
+            self.qs[sl] = o
+            ok[sl] = bool(o.durable) and o._key == k and o._sdb is self.sdbs[kind] and hold[k] is o and not o.stale
         return ok
 
     def close(self, clear=False):
@@ -241,10 +279,19 @@ class _World:
             self.sub.close(clear=clear)
             self.sub = None
 
-    def snap(self, q, res):
-        mem = [self.sdb._ser(v).decode("latin-1") for v in self.qs[q]]
-        store = [bytes(v).decode("latin-1") for v in self.sub.getIoVals(self.sdb.sdb, KEYS[q].encode())]
+    def ser(self, sl, v):
+        return self.sdbs[self.slots[sl][0]]._ser(v).decode("latin-1")
+
+    def snap(self, sl, res):
+        kind, ki = self.slots[sl]
+        sdb = self.sdbs[kind]
+        mem = [sdb._ser(v).decode("latin-1") for v in self.qs[sl]]
+        store = [bytes(v).decode("latin-1") for v in self.sub.getIoVals(sdb.sdb, KEYS[ki].encode())]
         return [res, mem, store]
+
+    def totals(self):
+        """number of entries in the whole drqs / dsqs sub-db"""
+        return [self.sub.drqs.cntAll(), self.sub.dsqs.cntAll()]
 
 
 def _ret(r):
@@ -259,29 +306,37 @@ def _ret(r):
 
 
 def _enter_all(w, via, pre):
-    """All three queues enter the Hold: via = [v0, v1, v2] one call each, or an int = all in one call."""
+    """All queues enter their Hold: via = [v per slot] one call each, or an int = all queues of a kind in one call."""
+    n = len(w.slots)
     if isinstance(via, int):
-        ok = w.enter([(q, pre.get(str(q), [])) for q in range(3)], via)
-        return [(q, ok[q]) for q in range(3)]
-    return [(q, w.enter([(q, pre.get(str(q), []))], via[q])[q]) for q in range(3)]
+        ok = {}
+        for kind in ("durq", "dusq"):
+            items = [(sl, pre.get(str(sl), [])) for sl in range(n) if w.slots[sl][0] == kind]
+            if items:
+                ok.update(w.enter(kind, items, via))
+        return [(sl, ok[sl]) for sl in range(n)]
+    return [(sl, w.enter(w.slots[sl][0], [(sl, pre.get(str(sl), []))], via[sl % len(via)])[sl]) for sl in range(n)]
 
 
 def _vias(case):
     """entry point of every model-level Enter event, in event order"""
-    def three(v):
-        return [v] * 3 if isinstance(v, int) else list(v)
-    out = three(case.get("via0", [0, 0, 0]))
+    n = len(_slots(case))
+
+    def each(v):
+        return [v] * n if isinstance(v, int) else [v[i % len(v)] for i in range(n)]
+    out = each(case.get("via0", [0, 0, 0]))
     for o in case["ops"]:
         if o[0] == "reopen":
-            out += three(o[2] if len(o) > 2 else [0, 0, 0])
+            out += each(o[2] if len(o) > 2 else [0, 0, 0])
         elif o[0] == "reinject":
             out.append(o[3] if len(o) > 3 else 0)
     return out
 
 
 def run_impl(case):
-    w = _World(case["kind"])
+    w = _World(case)
     obs = []
+    totals = None
     try:
         w.open()
         for q, ok in _enter_all(w, case.get("via0", [0, 0, 0]), {}):
@@ -296,6 +351,7 @@ def run_impl(case):
                 continue
             q = o[1]
             obj = w.qs[q]
+            isq = w.slots[q][0] == "durq"
             try:
                 if name == "push":
                     r = _ret(obj.push(_mk(o[2])))
@@ -303,10 +359,10 @@ def run_impl(case):
                     r = _ret(obj.push(None))
                 elif name == "extend":
                     vs = [_mk(i) for i in o[2]]
-                    r = _ret(obj.extend(vs) if case["kind"] == "durq" else obj.update(vs))
+                    r = _ret(obj.extend(vs) if isq else obj.update(vs))
                 elif name == "pull":
                     v = obj.pull(emptive=o[2])
-                    r = ["opt", None] if v is None else ["opt", w.sdb._ser(v).decode("latin-1")]
+                    r = ["opt", None] if v is None else ["opt", w.ser(q, v)]
                 elif name == "clear":
                     r = _ret(obj.clear())
                 elif name == "count":
@@ -320,7 +376,7 @@ def run_impl(case):
                     if name == "rawputbad":
                         r = _ret(obj.put(vs))
                     else:
-                        r = _ret(obj.extend(vs) if case["kind"] == "durq" else obj.update(vs))
+                        r = _ret(obj.extend(vs) if isq else obj.update(vs))
                 elif name == "pushbad":
                     r = _ret(obj.push(_bad(o[2], in_batch=False)))
                 elif name == "rawaddbad":
@@ -328,17 +384,18 @@ def run_impl(case):
                 elif name == "removebad":
                     r = _ret(obj.remove(_bad(o[2], in_batch=False)))
                 elif name == "reinject":
-                    r = ["bool", w.enter([(q, o[2])], o[3] if len(o) > 3 else 0)[q]]
+                    r = ["bool", w.enter(w.slots[q][0], [(q, o[2])], o[3] if len(o) > 3 else 0)[q]]
                 else:
                     raise ValueError(name)
                 res = ["ok", r]
             except Exception as ex:
                 res = ["exc", exn_kind(ex)]
             obs.append(w.snap(q, res))
+        totals = w.totals()
     finally:
         w.close(clear=True)
         shutil.rmtree(w.head, ignore_errors=True)
-    return {"obs": obs, "eq": _eq_table()}
+    return {"obs": obs, "eq": _eq_table(), "totals": totals}
 
 
 _EQ = []
@@ -369,10 +426,11 @@ def _eq_table():
 # ---------------------------------------------------------------- oracle: FIFO queue / insertion-ordered set
 def _events(case):
     """model-level op list: (q, op) with reopen expanded to one Reopen per queue, preceded by the 3 initial injections."""
-    ev = [(q, ["reopen1", []]) for q in range(3)]
+    n = len(_slots(case))
+    ev = [(q, ["reopen1", []]) for q in range(n)]
     for o in case["ops"]:
         if o[0] == "reopen":
-            ev += [(q, ["reopen1", o[1].get(str(q), [])]) for q in range(3)]
+            ev += [(q, ["reopen1", o[1].get(str(q), [])]) for q in range(n)]
         elif o[0] == "reinject":
             ev.append((o[1], ["reopen1", o[2]]))
         else:
@@ -388,8 +446,9 @@ def oracle(case, obs):
     ser = [e[0] for e in eqt]
     cls = {e[0]: e[1] for e in eqt}
     pyeq = lambda a, b: cls[a] == cls[b]
-    isset = case["kind"] == "dusq"
-    ref = {q: [] for q in range(3)}            # the reference content, as serialisations
+    slots = _slots(case)
+    ref = {q: [] for q in range(len(slots))}   # one independent reference content per (kind, key), as serialisations
+    isset = False
 
     def add(l, v):
         if not isset or not any(pyeq(v, x) for x in l):
@@ -402,6 +461,8 @@ def oracle(case, obs):
         l = ref[q]
         name = o[0]
         want = None
+        isset = slots[q][0] == "dusq"
+        where = f"{slots[q][0]} at {KEYS[slots[q][1]]!r}"
         if name == "reopen1":
             # reopening + resync restores exactly the durable content; an empty durable copy takes the preload
             if not l:
@@ -439,33 +500,40 @@ def oracle(case, obs):
             want = ["exc", "HierErr"]
         what = "queue" if not isset else "ordered set"
         if name == "reopen1" and res == ["ok", ["bool", False]]:
-            return (f"event {n}: the queue put into the Hold at {KEYS[q]!r} was not injected (not durable / no key / "
+            return (f"event {n}: the {where} put into the Hold was not injected (not durable / no key / "
                     f"no sub-db / not synced): its operations cannot reach the store")
         if res != want:
-            return f"event {n} {name} on {KEYS[q]!r}: returned {res}, a {what} returns {want}"
+            return f"event {n} {name} on {where}: returned {res}, a {what} returns {want}"
         if mem != l:
-            return f"event {n} {name} on {KEYS[q]!r}: memory is {mem}, a {what} holds {l}"
+            return f"event {n} {name} on {where}: memory is {mem}, a {what} holds {l}"
         if store != mem:
-            return f"event {n} {name} on {KEYS[q]!r}: durable copy {store} differs from memory {mem}"
+            return f"event {n} {name} on {where}: durable copy {store} differs from memory {mem}"
+    want_tot = [sum(len(ref[q]) for q in ref if slots[q][0] == k) for k in ("durq", "dusq")]
+    if obs.get("totals") is not None and obs["totals"] != want_tot:
+        return (f"the drqs / dsqs sub-dbs hold {obs['totals']} entries in all, the queues and sets hold {want_tot}: "
+                f"foreign entries in a sub-db")
     return None
 
 
 def classify(case, obs, why):
     """D38: the history of a Dusq uses two values that are equal in Python but serialised differently."""
-    if case["kind"] != "dusq":
-        return None
+    slots = _slots(case)
+    isset = lambda sl: slots[int(sl)][0] == "dusq"
     eqt = obs.get("eq") or _eq_table()
     used = set()
     for o in case["ops"]:
-        if o[0] in ("push", "count", "remove"):
+        if o[0] == "reopen":
+            for sl, v in o[1].items():
+                if isset(sl):
+                    used.update(v)
+        elif not isset(o[1]):
+            continue
+        elif o[0] in ("push", "count", "remove"):
             used.add(o[2])
         elif o[0] in ("extend", "reinject"):
             used.update(o[2])
         elif o[0] in ("extendbad", "rawputbad"):
             used.update(o[2]); used.update(o[3])
-        elif o[0] == "reopen":
-            for v in o[1].values():
-                used.update(v)
     cl = {}
     for i in used:
         cl.setdefault(eqt[i][1], set()).add(eqt[i][0])
@@ -518,13 +586,14 @@ def _coq_ev(ser, q, o, via=0):
         t = "Durq.RemoveBad"
     else:
         raise ValueError(name)
-    return f"({coq_N(q)}, {t})"
+    return t
 
 
-def _coq_evs(ser, ev, vias):
+def _coq_evs(ser, ev, vias, slots):
     out, it = [], iter(vias)
     for q, o in ev:
-        out.append(_coq_ev(ser, q, o, next(it) if o[0] == "reopen1" else 0))
+        t = _coq_ev(ser, q, o, next(it) if o[0] == "reopen1" else 0)
+        out.append(f"({coq_bool(slots[q][0] == 'dusq')}, {coq_N(slots[q][1])}, {t})")
     return out
 
 
@@ -547,10 +616,9 @@ def to_coq(case, obs):
     snaps = ["{| Durq.sn_res := %s; Durq.sn_mem := %s; Durq.sn_store := %s |}" % (
         _coq_res(r), coq_list([_b(x) for x in m], "bytes"), coq_list([_b(x) for x in s], "bytes"))
         for r, m, s in obs["obs"]]
-    return ("{| Durq.c_names := names; Durq.c_set := %s; Durq.c_eq := %s; Durq.c_ops := %s; Durq.c_obs := %s |}" % (
-        coq_bool(case["kind"] == "dusq"),
+    return ("{| Durq.c_names := names; Durq.c_eq := %s; Durq.c_ops := %s; Durq.c_obs := %s |}" % (
         "eqt",
-        coq_list(_coq_evs(ser, ev, _vias(case)), "N * Durq.qop"),
+        coq_list(_coq_evs(ser, ev, _vias(case), _slots(case)), "bool * N * Durq.qop"),
         coq_list(snaps, "Durq.snap")))
 
 
@@ -576,7 +644,7 @@ def shrink(case):
 
 
 def distribution(cases, obs):
-    d = {"durq": 0, "dusq": 0, "ops": 0, "reopens": 0, "with_py_equal_values": 0}
+    d = {"durq": 0, "dusq": 0, "mixed": 0, "ops": 0, "reopens": 0, "with_py_equal_values": 0}
     for c in cases:
         d[c["kind"]] += 1
         d["ops"] += len(c["ops"])
